@@ -47,7 +47,36 @@ int pthread_create (pthread_t *t, const pthread_attr_t *a, void *(*fn) (void *),
 	int r = nondet_int (); if (r == 0) { g_pcreate_ok++; *t = nondet_ulong (); } return r;
 }
 #endif
+#ifdef UNIT_SET_NAME
+/* TRUSTED: pthread_setname_np (call-log stub: Linux rejects names longer than 15 characters + NUL with ERANGE) */
+const char *g_orig_name; unsigned g_setname_calls; _Bool g_setname_too_long, g_setname_not_prefix;
+int pthread_setname_np (pthread_t t, const char *name)
+{
+	g_setname_calls++;
+	unsigned n = 0; while (n < 40 && name[n] != 0) n++;
+	if (n > 15) g_setname_too_long = 1;
+	for (unsigned i = 0; i < n && i < 40; i++) if (name[i] != g_orig_name[i]) g_setname_not_prefix = 1;
+	return nondet_bool () ? 0 : 34;
+}
+#endif
 #include "puthread-posix.c"
+#ifdef UNIT_SET_NAME
+/* C18: thread names longer than the platform limit are truncated into a temporary copy; whichever way the allocation
+ * goes, the system gets a name of at most 15 characters that is a prefix of the thread's name, and the copy is released */
+void h_set_name (void)
+{
+	char name[24]; unsigned len = nondet_uint (); __CPROVER_assume (len >= 1 && len <= 23);
+	for (unsigned i = 0; i < 23; i++) { name[i] = (char) nondet_uchar (); __CPROVER_assume ((i < len) == (name[i] != 0)); } name[23] = 0;
+	PUThread *t = malloc (sizeof (PUThread)); __CPROVER_assume (t != NULL);
+	t->base.name = name; g_orig_name = name;
+	g_alloc_may_fail = 1; g_alloc_failed = 0; g_allocs = g_frees = 0; g_setname_calls = 0; g_setname_too_long = g_setname_not_prefix = 0;
+	p_uthread_set_name_internal (t);
+	OBL (g_allocs == g_frees, "the temporary copy of a long name is released");
+	OBL (g_setname_calls <= 1 && (g_setname_calls == 1 || g_alloc_failed), "the system name is set once, unless the copy could not be allocated");
+	OBL (!g_setname_too_long && !g_setname_not_prefix, "the system gets at most 15 characters, a prefix of the thread's name");
+	if (len > 15 && g_setname_calls == 1) CANARY ("long name truncated"); if (len <= 15) CANARY ("short name passed as is"); if (g_alloc_failed) CANARY ("copy failed");
+}
+#endif
 #ifdef UNIT_CREATE_INTERNAL
 static void *thread_fn (void *a) { return a; }
 /* C05/C18/C20: the native thread handle -- one block, attribute object destroyed exactly once on every exit, at most one
